@@ -404,6 +404,6 @@ PROPERTIES['C03']['explanation'] = ('First sentence = frame clause of the strate
     'assert equal size_of / align_of of all CappedRecordK<CAP> for CAP = MAX_SIZE, MAX_SIZE+1, 2*MAX_SIZE+3.')
 PROPERTIES['C03']['unchecked'] = ['"a repr(align(N)) struct of one [u8; CAP] has size roundup(CAP, N)" is Rust\'s layout rule: evaluated by the compiler for the corpus instances, assumed in general']
 BXH = {'kind': 'bxh', 'name': 'builder-history'}
-PROPERTIES['C12']['units'] = lambda tier: [V_BUILDER, K_B5, BXH, V_LAYOUT] + bx_units(tier) + [K_DEF]
-PROPERTIES['C12']['unchecked'] = ['native builder operations are one-line delegations to the generic builder (not extracted)',
+PROPERTIES['C12']['units'] = lambda tier: [V_BUILDER, V_NATIVE, K_B5, BXH, V_LAYOUT] + bx_units(tier) + [K_DEF]
+PROPERTIES['C12']['unchecked'] = ['native builder: remove_datum and build are extracted and proved to delegate (unit native); close_record_variant(_with) and the lookups are one-line delegations that are not extracted',
                                   'name lookups are checked by Kani on a bounded family of states only (unit kani-builder-lookup); Verus uses their contract as an assumption']
